@@ -15,13 +15,18 @@ import (
 var errC18 = errors.New("interceptor failed")
 
 // c18Setup: three interceptor objects that log, edit a header and (one of them, possibly) fail.
+// c18Vals: per interceptor an arbitrary (symbolic numeral) header value it writes; set afresh by every c18Setup.
+var c18Vals [3]string
+
 func c18Setup(log *[]string, failing int) []*Interceptor {
 	ics := make([]*Interceptor, 3)
 	for i := range ics {
 		id := i
+		c18Vals[i] = vfNumStr(vfInt64("header-value"))
 		var f Interceptor = func(req *http.Request) error {
 			*log = append(*log, []string{"I0", "I1", "I2"}[id])
 			req.Header.Set("X-Trace", req.Header.Get("X-Trace")+[]string{"a", "b", "c"}[id])
+			req.Header.Set([]string{"X-V0", "X-V1", "X-V2"}[id], c18Vals[id])
 			if id == failing {
 				return errC18
 			}
@@ -81,6 +86,9 @@ func c18Request(s *SimpleHTTPDef, tr *vhTransport, log *[]string, model []int, f
 		vfAssert("transport-reached-once", len(tr.seen) == 1)
 		if len(tr.seen) == 1 {
 			vfAssert("header-edits-reach-transport", tr.seen[0].trace == wantTrace)
+			for _, k := range model {
+				vfAssert("header-edits-reach-transport", tr.seen[0].header.Get([]string{"X-V0", "X-V1", "X-V2"}[k]) == c18Vals[k])
+			}
 			vfAssert("verb", tr.seen[0].method == []string{"GET", "HEAD", "OPTIONS", "DELETE", "POST", "PUT", "PATCH"}[verb])
 			vfAssert("url", tr.seen[0].url == "http://h/x")
 			if verb >= 4 {
